@@ -26,7 +26,8 @@ class C15Check(ExplainerCheck):
             cfg = plan["config"]
         else:
             focus = "sage" if stratum in (2, 3) else "pfi"
-            plan = gen_explainer_plan(rng, self.prop, focus, names_kind=nk)
+            plan = gen_explainer_plan(rng, self.prop, focus, names_kind=nk,
+                                      long=(tier == "thorough" and run_index % 50 == 27))
             cfg = plan["config"]
         # documented-required-arguments-only stratum: strip every optional constructor argument
         if (run_index // 24) % 3 == 0:
@@ -74,7 +75,8 @@ class C16Check(ExplainerCheck):
             cfg["model"]["family"] = "linear" if cfg["model"]["family"] not in ("linear", "hash") else cfg["model"]["family"]
             cfg["model"].pop("labels", None)
             cfg["loss"]["family"] = "lin"
-        ops = gen_schedule(rng, cfg, mix=[("explain", 62), ("learn", 8), ("store", 6), ("observe", 24)])
+        ops = gen_schedule(rng, cfg, mix=[("explain", 62), ("learn", 8), ("store", 6), ("observe", 24)],
+                           T=rng.randint(100, 300) if (tier == "thorough" and run_index % 40 == 13 and arith != "exact") else None)
         strip_private(cfg)
         return {"property": self.prop, "kind": "explainer", "config": cfg, "ops": ops, "rs0": rng.getrandbits(48)}
 
